@@ -7,6 +7,7 @@ import (
 	"github.com/bmeg/grip/gripql"
 	"github.com/bmeg/grip/log"
 	"github.com/bmeg/grip/util"
+	"github.com/lib/pq"
 	"golang.org/x/sync/errgroup"
 	"google.golang.org/protobuf/types/known/structpb"
 )
@@ -37,7 +38,7 @@ func (db *GraphDB) BuildSchema(ctx context.Context, graphID string, sampleN uint
 			continue
 		}
 		g.Go(func() error {
-			q := fmt.Sprintf("SELECT * FROM %s WHERE label='%s'", graph.v, label)
+			q := fmt.Sprintf("SELECT * FROM %s WHERE label=%s", graph.v, pq.QuoteLiteral(label))
 			rows, err := graph.db.QueryxContext(ctx, q)
 			if err != nil {
 				log.WithFields(log.Fields{"error": err}).Error("BuildSchema: QueryxContext")
@@ -80,9 +81,9 @@ func (db *GraphDB) BuildSchema(ctx context.Context, graphID string, sampleN uint
 
 		g.Go(func() error {
 			q := fmt.Sprintf(
-				"SELECT a.label, b.label, c.label, b.data FROM %s as a INNER JOIN %s as b ON b.to=a.gid INNER JOIN %s as c on b.from = c.gid WHERE b.label = '%s' limit %d",
+				"SELECT a.label, b.label, c.label, b.data FROM %s as a INNER JOIN %s as b ON b.to=a.gid INNER JOIN %s as c on b.from = c.gid WHERE b.label = %s limit %d",
 				graph.v, graph.e, graph.v,
-				label, sampleN,
+				pq.QuoteLiteral(label), sampleN,
 			)
 			//fmt.Printf("Query: %s\n", q)
 			rows, err := graph.db.QueryxContext(ctx, q)
